@@ -500,12 +500,80 @@ def unicodeV : PyVal → Res PyVal
   | .other => .unmodelled
   | _ => .invalid
 
-/-- IntValidator.to_python (= from_python): `int` (and `bool`) unchanged, `__int__` → `int(value)` -/
+/-- is the integer exactly representable as an IEEE double (53-bit significand; overflow ignored) -/
+def exactNat (n : Nat) : Bool := n ≤ 9007199254740992 || n % 2 ^ (n.log2 - 52) == 0
+
+def exactInt (i : Int) : Bool := exactNat i.natAbs
+
+/-- what the decimal text of a float (`repr`) says about it -/
+inductive FClass where
+  | nonfinite            -- inf, -inf, nan
+  | fractional           -- has a fractional part
+  | integral (n : Int)   -- an integer below 10^15 (so the text is its exact value)
+  | unknown              -- integral but large (the text is the shortest repr, not the exact value), or not repr syntax
+deriving DecidableEq, Repr
+
+def stripTrailingZeros (s : Str) : Str := (s.reverse.dropWhile (· = 48)).reverse
+
+/-- `[+-]digits` of an exponent -/
+def expOf : Str → Option Int
+  | [] => some 0
+  | 101 :: 45 :: q => if q ≠ [] ∧ q.all isDigit then some (-(valD q : Int)) else none
+  | 101 :: 43 :: q => if q ≠ [] ∧ q.all isDigit then some (valD q : Int) else none
+  | 101 :: q => if q ≠ [] ∧ q.all isDigit then some (valD q : Int) else none
+  | _ => none
+
+/-- classify `repr(float)` text `[-]d+[.d+][e[+-]d+]` / `inf` / `nan`.  For a double below 2^53 the shortest
+    repr shows a non-zero fraction digit exactly when the double is not an integer. -/
+def floatClass (t : Str) : FClass :=
+  let r := match t with
+    | 45 :: r => r
+    | _ => t
+  let neg := match t with
+    | 45 :: _ => true
+    | _ => false
+  if r = [105, 110, 102] ∨ r = [110, 97, 110] then .nonfinite
+  else
+    let ip := r.takeWhile isDigit
+    let r1 := r.drop ip.length
+    let fpAll := match r1 with
+      | 46 :: q => q.takeWhile isDigit
+      | _ => []
+    let r2 := match r1 with
+      | 46 :: q => q.drop fpAll.length
+      | _ => r1
+    let fp := stripTrailingZeros fpAll
+    if ip = [] then .unknown
+    else match expOf r2 with
+      | none => .unknown
+      | some e =>
+        let m := valD (ip ++ fp)
+        let k : Int := e - fp.length
+        if m = 0 then .integral 0
+        else if k < 0 then (if m % 10 ^ k.natAbs = 0 then
+            (let n := m / 10 ^ k.natAbs
+             if n < 10 ^ 15 then .integral (if neg then -(n : Int) else n) else .unknown)
+          else .fractional)
+        else
+          let n := m * 10 ^ k.toNat
+          if n < 10 ^ 15 then .integral (if neg then -(n : Int) else n) else .unknown
+
+/-- IntValidator on a float: a fractional part (or nan / inf) is Invalid, an integral float is `int(value)` -/
+def intOfFloat : FTok → Res PyVal
+  | .lit t => match floatClass t with
+    | .nonfinite => .invalid
+    | .fractional => .invalid
+    | .integral n => .ok (.int n)
+    | .unknown => .unmodelled
+  | .ofInt i => if exactInt i then .ok (.int i) else .unmodelled
+
+/-- IntValidator.to_python (= from_python): `int` (and `bool`) unchanged; a float with a fractional part is
+    refused; otherwise `__int__` → `int(value)` -/
 def intV : PyVal → Res PyVal
   | .none => .ok .none
   | .int i => .ok (.int i)
   | .bool b => .ok (.bool b)
-  | .float _ => .unmodelled
+  | .float t => intOfFloat t
   | .decimal _ => .unmodelled
   | .uuid _ => .unmodelled      -- UUID has `__int__`
   | .other => .unmodelled
@@ -709,11 +777,6 @@ def cmpConv : Aff → DbVal → Option DbVal
   | .blob, v => some v
   | _, .text s => applyAff .numeric (.text s)
   | _, v => some v
-
-/-- is the integer exactly representable as an IEEE double (53-bit significand; overflow ignored) -/
-def exactNat (n : Nat) : Bool := n ≤ 9007199254740992 || n % 2 ^ (n.log2 - 52) == 0
-
-def exactInt (i : Int) : Bool := exactNat i.natAbs
 
 /-- SQLite `=` on stored values (NULL never equal); int vs double compared exactly: an integer
     equals the double nearest to `j` only if it is `j` and `j` is exactly representable -/
